@@ -181,9 +181,15 @@ def random_mpu(rng, nregions, focus=(DATA, CODE, LOW, STACKS)):
     return regs
 
 
-def mpu_sys(regs, dregion=None):
-    return {'drsrs': [x[0] for x in regs], 'drbars': [x[1] for x in regs], 'dracrs': [x[2] for x in regs],
-            'mpuir': (len(regs) if dregion is None else dregion) << 8}
+def mpu_sys(regs, dregion=None, nu=0):
+    """system-register values for a set of MPU regions [(DRSR, DRBAR, DRACR)].  nu=1: the MPU presents itself as non-unified (MPUIR.nU, IREGION) and
+    the instruction-side region registers hold the same regions (a legal PMSAv7 option; on a unified implementation they are simply unused)"""
+    n = len(regs) if dregion is None else dregion
+    d = {'drsrs': [x[0] for x in regs], 'drbars': [x[1] for x in regs], 'dracrs': [x[2] for x in regs], 'mpuir': n << 8}
+    if nu:
+        d['mpuir'] |= 1 | n << 16
+        d.update({'irsrs': [x[0] for x in regs], 'irbars': [x[1] for x in regs], 'iracrs': [x[2] for x in regs]})
+    return d
 
 
 # ------------------------------------------------------------------ instruction word sources
@@ -330,8 +336,37 @@ def macro(rng, thumb):
     """a short sequence of RELATED instructions (same base register, matching pairs) as stream entries: single random words
     almost never form these, yet state such as exclusive monitors, IT blocks, stack frames and saved PSRs only exists across them"""
     r = lambda: rng.randrange(0, 13)
-    k = rng.randrange(9)
+    k = rng.randrange(11)
     rn, rt, rd, rx = r(), r(), r(), r()
+    if k == 10:
+        # a page walker: 36-48 loads/stores, each one 4 KiB after the other (more distinct pages than a small translation or region cache holds),
+        # starting at a seeded 64 KiB boundary of the low megabyte
+        n = rng.randrange(36, 49)
+        if rx == rn:
+            rx = (rn + 1) % 13
+        if rt in (rn, rx):
+            rt = next(x for x in range(13) if x not in (rn, rx))
+        base_hi = rng.choice([0, 1, 2, 3, 0x10, 0x11])           # base = base_hi << 16
+        ld = rng.random() < 0.7
+        if thumb:
+            rn, rx = rn & 7, (rx & 7) if (rx & 7) != (rn & 7) else ((rn & 7) + 1) & 7
+            rt = next(x for x in range(8) if x not in (rn, rx))
+            seq = [T.movw(rn, 0), T.movt(rn, base_hi), T.movw(rx, 0x1000)]
+            for _ in range(n):
+                seq += [(0xF8500000 if ld else 0xF8400000) | rn << 16 | rt << 12 | rx, _t16(0x4400 | rx << 3 | rn)]      # LDR/STR.W rt,[rn,rx] ; ADD rn,rx
+            return seq
+        seq = [A.movw(rn, 0), A.movt(rn, base_hi), A.movw(rx, 0x1000)]
+        for _ in range(n):
+            seq.append((0xE6900000 if ld else 0xE6800000) | rn << 16 | rt << 12 | rx)                                   # LDR/STR rt,[rn],rx
+        return seq
+    if k == 9:
+        # an exception return INTO the middle of an IT block: a saved PSR with T=1 and a live ITSTATE is written to the SPSR and installed by the
+        # return; the words that follow run as the rest of that block (what a handler returning to an interrupted IT block does)
+        it = rng.randrange(14) << 4 | rng.choice([8, 4, 12, 2, 6, 10, 14, 1, 3, 5, 7, 9, 11, 13, 15])
+        psr = rng.getrandbits(4) << 28 | (it & 3) << 25 | (it >> 2) << 10 | 1 << 5 | rng.choice([0x10, 0x10, 0x13, 0x1F, 0x12]) | rng.getrandbits(2) << 6
+        if thumb:
+            return [T.movw(rt, psr & 0xFFFF), T.movt(rt, psr >> 16), T.msr(rt, 0xF, 1), T.subs_pc_lr(rng.choice([0, 0, 4]))]
+        return [A.movw(rt, psr & 0xFFFF), A.movt(rt, psr >> 16), A.msr_reg(rt, 0xF, 1), rng.choice([A.movs_pc_lr(), A.subs_pc_lr(4)])]
     if k == 8:
         # a debugger/host call in the style of ARM semihosting: operation number in r0, parameter block pointer in r1 (the block at DATA+0x800
         # holds {handle, buffer, length}), then the magic SVC / BKPT.  An emulator that serves such calls must stay total and deterministic
